@@ -622,6 +622,11 @@ func runProxy(sc proxyScenario) (problems []string, skipped string) {
 	if err != nil {
 		return nil, "dial endpoint: " + err.Error()
 	}
+	if sc.fault == "sever-backlog" && sc.mode != "legacy" {
+		// side connections are websockets of their own: they are not multiplexed over the control
+		// connection and legitimately outlive it, so this scenario only concerns the legacy mode
+		return nil, "sever-backlog applies to the legacy (multiplexed) mode only"
+	}
 	if sc.fault == "sever-backlog" {
 		// the application is slow to accept: dials queue up in the endpoint (10 buffered, the rest parked
 		// in sendAccept); the tunnel is lost; then the application accepts what was handed to it
